@@ -28,7 +28,8 @@ type c06Case struct {
 	Warm    int     `json:"warm"`               // lib2ref: the sending key object has carried a long (1) / an empty (2) message before
 	Env     []int   `json:"env,omitempty"`      // random-source answers during protection (explorer choices)
 	SKFlags int     `json:"sk_flags,omitempty"` // ref2lib: the peer sets this octet as critical flag / reserved bits of the SK generic header (a receiver ignores it; the checksum covers it)
-	Again   int     `json:"again,omitempty"`    // lib2ref: the same message object is protected a second time after 1: the Message ID changed, 2: under another SA (rekey), 3: by the other role; the second datagram is the one examined
+	KeyBuf  bool    `json:"key_scratch,omitempty"` // lib2ref: the sender's security objects were made from one scratch buffer that the caller refilled per key and wiped afterwards
+	Again   int     `json:"again,omitempty"`    // lib2ref: (4: a second message object built over the same payload slice is protected after the first; its datagram is the one examined) the same message object is protected a second time after 1: the Message ID changed, 2: under another SA (rekey), 3: by the other role; the second datagram is the one examined
 }
 
 func init() {
@@ -36,6 +37,7 @@ func init() {
 		ID:    "C06",
 		Level: "model_checking",
 		Rule: "(a) every library-protected message of the universe (sequences up to the depth bound) × 9 suites × both directions × key patterns is verified, decrypted and parsed by the independent RFC 7296 §3.14 receiver (own CBC over the AES block, own HMAC): cleartext header, single SK, SK.next, IV‖CBC(inner‖pad‖padlen) under the sender's SK_e, ICV = trunc(HMAC(SK_a, everything before it)), final lengths; " +
+			"a second protection of one message object (other Message ID / SA / role), a second message object built over the same payload slice, and sender key objects made from one scratch buffer that the caller refilled per key and wiped are judged the same way; "+
 			"(b) reference-protected messages with every legal pad length 0..255 (16 per message) × pad octet patterns {0x00,0xFF,counting,=padlen} × IV patterns are given to DecodeDecrypt. distinct_nontrivial = distinct protected datagrams with >= 1 inner payload accepted by the other side",
 		Assumptions: []string{"trusted primitives shared by both sides: AES block function, MD5/SHA-1/SHA-256 compression"},
 		Run:         runC06,
@@ -89,6 +91,12 @@ func runC06(c *engine.Ctx) {
 							for ag := 1; ag <= 3; ag++ {
 								evalC06(c, c06Case{K: "lib2ref", Name: name, M: m, Suite: si, Pattern: pat, SenderI: sI, Again: ag})
 							}
+						}
+						if len(m.P) >= 1 && len(m.P) <= 2 {
+							evalC06(c, c06Case{K: "lib2ref", Name: name, M: m, Suite: si, Pattern: pat, SenderI: sI, Again: 4})
+						}
+						if len(m.P) <= 1 {
+							evalC06(c, c06Case{K: "lib2ref", Name: name, M: m, Suite: si, Pattern: pat, SenderI: sI, KeyBuf: true})
 						}
 					}
 				}
@@ -160,6 +168,9 @@ func evalC06(c *engine.Ctx, cs c06Case) {
 	dir := map[bool]string{true: "I->R", false: "R->I"}[cs.SenderI]
 	if cs.K == "lib2ref" {
 		sa, err := univ.NewSA(ks)
+		if cs.KeyBuf {
+			sa, err = univ.NewSAScratch(ks)
+		}
 		if err != nil {
 			c.Violate("sa-construction", errStr(err), cs)
 			return
@@ -168,6 +179,14 @@ func evalC06(c *engine.Ctx, cs c06Case) {
 		if err != nil {
 			c.Violate("build-error", errStr(err), cs)
 			return
+		}
+		var sibling *message.IKEMessage
+		if cs.Again == 4 {
+			// the same payloads are sent in two messages (a notification under two message IDs): the caller builds
+			// both message objects over one payload slice
+			h := *lm.IKEHeader
+			h.MessageID += 7
+			sibling = &message.IKEMessage{IKEHeader: &h, Payloads: lm.Payloads}
 		}
 		if cs.Warm != 0 {
 			peer, _ := univ.NewSA(ks)
@@ -227,12 +246,18 @@ func evalC06(c *engine.Ctx, cs c06Case) {
 				}
 			case 3:
 				senderI2 = !cs.SenderI
+			case 4:
+				wantHdr.MsgID += 7
 			}
 			ske, ska = ks.DirKeys(senderI2)
 			hs := engine.NewSeam(nil, nil)
 			hs.Stream = uint64(cs.Pattern) + 200
 			rst := engine.Install(hs)
-			pi = engine.Catch(func() { b, err = ike.EncodeEncrypt(lm, sa2, roleOf(senderI2)) })
+			target := lm
+			if cs.Again == 4 {
+				target = sibling
+			}
+			pi = engine.Catch(func() { b, err = ike.EncodeEncrypt(target, sa2, roleOf(senderI2)) })
 			rst()
 			if pi != nil {
 				c.Violate(pi.Sig(), "second EncodeEncrypt of the same message object panics: "+pi.Value, cs)
@@ -242,8 +267,13 @@ func evalC06(c *engine.Ctx, cs c06Case) {
 				c.Count("second_protection_refused", 1)
 				return
 			}
-			wantInnerFirst = int(ref.PSK)
-			retried = fmt.Sprintf("/second-protection(%d)", cs.Again)
+			if cs.Again == 4 {
+				m.H = wantHdr
+				retried = "/second-message-over-the-same-payload-slice"
+			} else {
+				wantInnerFirst = int(ref.PSK)
+				retried = fmt.Sprintf("/second-protection(%d)", cs.Again)
+			}
 		}
 		if err != nil {
 			if !protectedFits(m, ks.Suite.Integ.OutLen) {
